@@ -90,4 +90,18 @@ theorem C09_reachable_staged_file_is_not_dir (spec : SpecV) (ops : List (Op × S
     o.inv.headVersion.isDir p = false :=
   file_not_dir _ (C09_reachable_staged_wellformed spec ops id o h).1 p hf
 
+/-- **a recursive operation on a directory touches that directory only**: the paths `rm -r`, `reset -r`,
+    `cp -i -r` and `mv -i` collect for a directory `d` are exactly the paths of the version of the form
+    `d/…`; a neighbour whose name merely starts with `d` (`d12/x` next to `d1`) is never among them -/
+theorem C09_directory_is_path_boundary (v : Version) (d p : Str) (hd : d ≠ []) (hl : d.getLast? ≠ some '/') :
+    p ∈ v.pathsWithPrefix d ↔ p ∈ AL.keys v.state ∧ ∃ rest, p = d ++ '/' :: rest := by
+  rw [pathsWithPrefix_iff v d p hd hl, under_iff]
+
+theorem C09_sibling_directory_untouched (v : Version) (d : Str) (c : Char) (rest : Str) (hd : d ≠ [])
+    (hl : d.getLast? ≠ some '/') (hc : c ≠ '/') : d ++ c :: rest ∉ v.pathsWithPrefix d := by
+  intro h
+  have := ((pathsWithPrefix_iff v d _ hd hl).mp h).2
+  rw [under_sibling_false d _ c rest hc rfl] at this
+  cases this
+
 end Rocfl.Theorems.C09
